@@ -279,6 +279,32 @@ m("C38", "harmless_reordered_checks", MAKER,
 	}""")],
   "OK", "harmless: the two empty-proposal cases merged and swapped")
 
+m("C38", "pool_fact_index_written_once", POOL,
+  [("""			if prev, found := facts[factkey]; found {
+				removeops = append(removeops, ops[prev][0])
+				ops[prev] = [2]util.Hash{}
+
+				selected--
+			}
+
+			ops = append(ops, [2]util.Hash{meta.Operation(), meta.Fact()})
+			facts[factkey] = len(ops) - 1
+			selected++
+""", """			switch prev, found := facts[factkey]; {
+			case found:
+				removeops = append(removeops, ops[prev][0])
+				ops[prev] = [2]util.Hash{}
+
+				selected--
+			default:
+				facts[factkey] = len(ops)
+			}
+
+			ops = append(ops, [2]util.Hash{meta.Operation(), meta.Fact()})
+			selected++
+""")],
+  "VIOLATION", "OperationHashes writes the fact index only the first time a fact is seen: with 3 operations of one fact the proposal lists the fact twice (seeded/C38-A)")
+
 
 def main():
     want = set(sys.argv[1:])
